@@ -29,7 +29,8 @@ RULE = (
     "appended to markup openers; (c) filter/tag skeleton programs rendered against "
     "type-confused data (nan, inf, 10**400, negative sizes, wrong containers, depth-60 "
     "nesting), sync and async. distinct = hash of (source, data, mode); non-trivial = the "
-    "text differs from every corpus template and the lexer got past the first character "
+    "plus programs from the shared typed grammar with every free variable bound to a hostile "
+    "value; text differs from every corpus template and the lexer got past the first character "
     "(the call either parsed or raised from inside liquid2)."
 )
 ASSUMPTIONS = [
@@ -356,6 +357,9 @@ def shards(tier: str, seed: int) -> list[dict[str, Any]]:
     for i in range(nc):
         specs.append({"kind": "confused", "i": i, "n": nc})
     specs.append({"kind": "rangeprobe"})
+    ng = 5 if tier == "quick" else 16
+    for i in range(ng):
+        specs.append({"kind": "genconf", "i": i, "n": ng, "per": 1200 if tier == "quick" else 12000})
     return specs
 
 
@@ -381,6 +385,8 @@ def run_shard(spec: dict[str, Any], ctx: Ctx) -> None:
             _confused(r, spec, ctx)
         elif kind == "rangeprobe":
             _rangeprobe(r, spec, ctx)
+        elif kind == "genconf":
+            _genconf(r, spec, ctx)
     finally:
         r.sc.stop()
 
@@ -486,6 +492,34 @@ def _confused(r: Runner, spec: dict[str, Any], ctx: Ctx) -> None:
                 r.execute(c["template"], d, c["templates"], "sync")
     if last:
         ctx.sample({"kind": "confused", "source": last[0], "data": last[1]})
+
+
+def _genconf(r: Runner, spec: dict[str, Any], ctx: Ctx) -> None:
+    """Grammar-generated programs (shared typed generator: every tag, ~48 filters, lambdas,
+    ternaries, partials, macros) rendered against type-confused data: every variable the
+    generator believes to be an int / string / array / hash is bound to a hostile value."""
+    from ..gen import emit as E
+    from ..gen.programs import ALL_NAMES
+    from ..gen.programs import Gen
+
+    rng = random.Random(f"{spec['seed']}:genconf:{spec['i']}")
+    last = None
+    for _ in range(spec["per"]):
+        g = Gen(random.Random(rng.random()))
+        prog = g.program()
+        em = E.emit(prog, E.Layout(random.Random(rng.random()), p_marker=0.2, noisy_ws=rng.random() < 0.3,
+                                   alt_forms=True))
+        for k in range(6):
+            data = g.data() if k == 0 else {}
+            names = ALL_NAMES if k else rng.sample(ALL_NAMES, 3)
+            for n in names:
+                if k == 0 or rng.random() < 0.7:
+                    data[n] = rng.choice(RANGE_SAFE)
+            last = (em.source, data)
+            r.execute(em.source, data, em.partials, "async" if k % 3 == 2 else "sync")
+        ctx.count("generated_programs_confused")
+    if last:
+        ctx.sample({"kind": "generated+confused", "source": last[0], "data": last[1]})
 
 
 RANGE_PROBES = [
